@@ -57,6 +57,9 @@ type Hub struct {
 
 	hasStarted bool
 
+	// set by Shutdown: no connection is initiated and nothing is announced any more
+	hasShutdown bool
+
 	muxCon        sync.Mutex
 	muxConAttempt sync.Mutex
 	muxReg        sync.Mutex
@@ -91,6 +94,7 @@ var _ api.HubInterface = (*Hub)(nil)
 func (h *Hub) Start() {
 	h.muxStarted.Lock()
 	h.hasStarted = true
+	h.hasShutdown = false
 	h.muxStarted.Unlock()
 
 	// start the websocket server
@@ -107,6 +111,10 @@ func (h *Hub) Start() {
 
 // close all connections
 func (h *Hub) Shutdown() {
+	h.muxStarted.Lock()
+	h.hasShutdown = true
+	h.muxStarted.Unlock()
+
 	h.mdns.Shutdown()
 
 	// closing a connection removes it from the map: iterate over a copy taken under the lock
@@ -162,6 +170,10 @@ func (h *Hub) numberPairedServices() int {
 
 // startup mDNS if a paired service is not connected
 func (h *Hub) checkAutoReannounce() {
+	if h.checkHasShutdown() {
+		return
+	}
+
 	countPairedServices := h.numberPairedServices()
 	h.muxCon.Lock()
 	countConnections := len(h.connections)
